@@ -42,7 +42,11 @@ REQUIRED = ["check_order_irrelevant_for_accept", "valid_only_if", "key_is_from_t
             "entryValidOf_iff", "accepted_credential_has_well_formed_status_entries", "fact_status_entry_validate_sequence",
             # deepening round 2: statusListIndex text -> slot (strconv.Atoi inside the model)
             "indexOfText_some_iff", "negative_index_text_is_refused", "accepted_status_index_text_denotes_the_slot",
-            "status_decision_reads_the_denoted_bit", "set_bit_at_denoted_slot_is_never_valid", "fact_default_validator_sequence"]
+            "status_decision_reads_the_denoted_bit", "set_bit_at_denoted_slot_is_never_valid", "fact_default_validator_sequence",
+            # deepening round 3: revocation lookup (leia store read -> IsRevoked -> Verify) inside the model
+            "isRevoked_no_iff", "isRevoked_error_iff", "getRevocations_found_iff", "getRevocation_never_panics",
+            "reported_valid_only_if_store_answered_empty", "store_read_fault_is_never_valid", "any_stored_document_blocks_validity",
+            "fact_revocation_lookup_flow"]
 
 SCAN_KINDS = ("time", "flags", "trust", "revoked")
 PROOF_OPTS = ("shape", "typ", "vm", "purpose", "created", "expires", "domain", "challenge", "nonce")
@@ -379,7 +383,7 @@ def run_subject_legs(ctx, facts):
 def run(ctx):
     ctx.level = "proof (decision logic) + conditional tamper-evidence; PARTIAL by construction on canonicalisation and cryptography (contracts)"
     facts = ctx.facts()
-    thms = ctx.build_and_audit(["NutsProofs.Props.C01", "NutsProofs.Props.C01Subject", "NutsProofs.Props.C01CaseVariant", "NutsProofs.Props.C01Status"])
+    thms = ctx.build_and_audit(["NutsProofs.Props.C01", "NutsProofs.Props.C01Subject", "NutsProofs.Props.C01CaseVariant", "NutsProofs.Props.C01Status", "NutsProofs.Props.C01RevStore"])
     for r in REQUIRED:
         if not any(t.endswith("Props." + r) for t in thms):
             ctx.oblige("thm-present:" + r, False, "theorem missing or its module does not build")
@@ -571,6 +575,43 @@ def run(ctx):
                               "case-variant.jsonl", ops_raw[i] + "\n")
     ctx.cov["case_variant_guard_ops"] = dict(Counter(impl[i] for i, op in enumerate(ops) if op.get("op") == "case-variant"))
     ctx.oblige("oracle:case-variant-guard-finds-every-case-variant-member-at-any-depth(impl)", cv_bad == 0 and (n_cv > 0 or bool(ctx.replay)), f"{cv_bad} wrong of {n_cv}")
+
+    # deepening round 3: the revocation lookup on the real leia store.  The property's clause: "not revoked" may only be answered when the
+    # store's query succeeded and holds NO document for that credential id (a read fault or an undecodable stored revocation is not a "no");
+    # a stored decodable set is "revoked"; documents of look-alike ids never count; GetRevocation never panics.
+    rs_bad = n_rs = 0
+    seen_rs = set()
+    for i, op in enumerate(ops):
+        if op.get("op") != "revstore":
+            continue
+        n_rs += 1
+        m = re.match(r"get=(\S+) revoked=(\S+) one=(\S+)$", impl[i])
+        docs, fault = op.get("docs") or [], bool(op.get("fault"))
+        why = None
+        if not m:
+            why = "lookup-panics" if impl[i].startswith("panic") else "unreadable-outcome"
+        else:
+            get, rev, one = m.groups()
+            if rev == "false" and (fault or docs):
+                why = "not-revoked-although-" + ("the-store-could-not-be-read" if fault else ("a-stored-document-does-not-decode" if not all(docs) else "a-revocation-is-stored"))
+            elif rev == "true" and (fault or not docs):
+                why = "revoked-without-a-stored-revocation"
+            elif rev == "error+true" or "foreign" in get or "foreign" in one:
+                why = "answers-with-a-revocation-of-another-credential" if "foreign" in impl[i] else "error-and-revoked"
+            elif one == "panic":
+                why = "GetRevocation-panics"
+            elif (one == "ok") != (rev == "true"):
+                why = "GetRevocation-disagrees-with-IsRevoked"
+            elif not fault and docs and all(docs) and get != f"found:{len(docs)}":
+                why = "stored-revocations-not-all-returned"
+        if why:
+            rs_bad += 1
+            if why not in seen_rs:
+                seen_rs.add(why)
+                ctx.violation("C01:revocation-lookup:" + why, f"{op.get('label')}: store with documents(decodable?)={docs} fault={fault} near-ids={op.get('near')}: {impl[i]}",
+                              "revocation-lookup_" + why + ".jsonl", ops_raw[i] + "\n")
+    ctx.cov["revocation_lookup_ops"] = dict(Counter(impl[i] for i, op in enumerate(ops) if op.get("op") == "revstore"))
+    ctx.oblige("oracle:not-revoked-only-when-the-store-answered-with-no-document(impl)", rs_bad == 0 and (n_rs > 0 or bool(ctx.replay)), f"{rs_bad} wrong of {n_rs}")
 
     # revocation is permanent from the verifier's point of view: once a verification of a document reported "revoked", every later
     # verification of the same document on that node reports revoked (refreshes of a status list must not resurrect it)
